@@ -488,7 +488,7 @@ inline BadLen genBadLength(pbt::Src &src, bool request)
     b.kind = "chunk-data-no-crlf";
     withChunks(src.coin() ? "5\r\nhelloXX0\r\n\r\n" : "5\r\nhelloXX\r\n0\r\n\r\n");
     break;
-  case 20: b.kind = "te-substring"; b.wire = start + common + te + ": " + src.oneOf<std::string>({"xchunked", "chunkedx", "not-chunked", "chunked, identity"}) + "\r\n\r\n5\r\nhello\r\n0\r\n\r\n"; break;
+  case 20: b.kind = "te-substring"; b.wire = start + common + te + ": " + src.oneOf<std::string>({"xchunked", "chunkedx", "not-chunked", "chunked, identity", "chunked,", ",", "chunked , ,"}) + "\r\n\r\n5\r\nhello\r\n0\r\n\r\n"; break;
   default: b.kind = "te-substring"; b.wire = start + common + te + ": chunked;q=1, gzip\r\n\r\n5\r\nhello\r\n0\r\n\r\n"; break;
   }
   return b;
